@@ -72,6 +72,8 @@ class Prop(PropBase):
             self.defines = dict(FLAGS); self.defines.update(THOROUGH_FLAGS)
 
     def variant_for(self, bname):
+        if bname == 'tfpair':
+            return 'asan+transform'
         return 'asan+crc' if bname.startswith('crc') or bname == 'kern_crc' else 'asan'
 
     def kernel_class(self, k):
@@ -132,6 +134,9 @@ class Prop(PropBase):
                 txt = scen.mixed_scenario(rng, L, t, f'c20_raw_{t}_{r}', cfg, host=not cfg.lclock, temp_query=True, dev_query=True)
                 sc.append(txt)
         out.append(('raw', '\n'.join(sc) + '\n'))
+        # ---- ENABLE_TRANSFORM: the identity pose of one driver is not disturbed by another driver's pose in the same process
+        # (run on the transform build only, against the model, which applies each instance's own pose)
+        out.append(('tfpair', '\n'.join(scen.tf_pair_scenario(rng, L, f'c20_tfpair_{k}', a, b) for k, (a, b) in enumerate([('RS16', 'RS16'), ('RS32', 'RSHELIOS')])) + '\n'))
         # ---- threaded inputs
         pc, so = [], []
         ttypes = rng.sample(scen.MECH, 2) + ['RSM1'] if tier == 'quick' else scen.ALL
@@ -244,6 +249,13 @@ class Prop(PropBase):
             # these deliberately short packets are throttled by the real clock)
             saved = self.projection
             self.projection = {'kinds': {'pkt', 'crash', 'nodrv', 'initfail'}, 'ignore_ts': True}
+            try:
+                return self.judge2(bname, inp, impl_path, model_path, impl_log, violations, broken, stats)
+            finally:
+                self.projection = saved
+        if bname == 'tfpair':
+            saved = self.projection
+            self.projection = dict(saved, xyz_rigid_tol=10.0)     # rotated points: judged against the length of the vector
             try:
                 return self.judge2(bname, inp, impl_path, model_path, impl_log, violations, broken, stats)
             finally:
